@@ -267,6 +267,7 @@ let register (reg : string -> (string list -> string) -> unit) =
   reg "concat" (function [n; f; s; c] -> concat_case n f s c | _ -> "BADARGS");
   reg "http" (function [t; e; sc] -> http_case t e sc | [t; e] -> http_case t e "" | _ -> "BADARGS");
   reg "xml" (function [k; t] -> xml_case k t | [k] -> xml_case k "" | _ -> "BADARGS");
+  reg "csshex" (function [v] -> hexe (CssColor.hex_color_minify Tables_gen.css_shorten_color_hex (hexd v)) | _ -> "BADARGS");
   reg "htmlws" (function [o; t] -> htmlws_case o t | [o] -> htmlws_case o "" | _ -> "BADARGS");
   reg "htmlwf" (function [_; t] -> if HtmlWsWf.wf_tokens_b (htmlws_toks t) then "1" else "0" | [_] -> "1" | _ -> "BADARGS");
   reg "htmlattr" (function [v; q; m] -> hexe (HtmlAttr.html_escape_attr_val (hexd v) (z_of_int (int_of_string q)) (m = "1")) | _ -> "BADARGS");
